@@ -24,3 +24,4 @@ def run(chk):
     c06.run(chk, mode_filter=lambda m: m not in AEAD_MODES and m != 'IMB_CIPHER_NULL', only_cells=True, ids=('B2', 'B2h', 'B2o'))
     clones.rule_clones(chk, 'N1', select=lambda s: not _re.search(r'gcm|ccm|cmac|xcbc|ghash|gmac|pon|docsis.*crc', s), floor=20)
     clones.rule_const_width(chk, 'N2', floor=100)
+    clones.rule_threshold_tests(chk, 'N3', floor=20)
